@@ -2,9 +2,9 @@ SPECIFICATION Spec
 CONSTANTS
   Nodes = {"n2"}
   Extra = {}
-  MaxSurveys = 2
-  MaxDeliver = 4
-  LocalModes = {"sync", "async"}
+  MaxSurveys = 1
+  MaxDeliver = 3
+  LocalModes = {"async"}
   DupOK = TRUE
   Causal = TRUE
   LocalSend = "nonblocking"
